@@ -53,8 +53,8 @@ CLAIMED = {
          "no_panic, no_deadlock, terminates, producer_exits_and_unpins, next_after_end_is_false, observable_deterministic for every item list, consumer program and interleaving; callbacks never run under a mutex (regenerated tables). Real iterators are driven with random Next/Close programs; outputs, goroutine count and version pin are checked; visitor callbacks issue nested reads and mutations.",
          "PARTIAL: real scheduler interleavings of the two goroutines are sampled, not enumerated; abandoned iterators are excluded by the property."),
  "C15": ("Lean proof of the reference accounting invariant over all event sequences; callback-log predicates on the implementation",
-         "accounting / never_negative / reachable_positive / closed_balanced for every precondition-respecting sequence of the seven reference events. The package runs with counting ItemAlloc/ItemAddRef/ItemDecRef callbacks over histories with snapshots, evictions, flushes, re-opens, nested visits; after every step no count is negative and every cached reachable item is positive; after closing everything all counts are zero EXCEPT in the histories of known finding F11, where the property's last clause is false of the code (see level_note).",
-         "closed_balanced is a theorem about Model Refs, which has no nodes loaded lazily into an old version's private copy of a child slot; on the code that is exactly where the clause 'once everything is closed every reference has been released' FAILS (known finding F11, corpus/F11-orphan-leak.ops, known_findings.json; the check prints KNOWN-FINDING for it and still reports any other imbalance). The first two clauses (never negative, reachable => positive) have no known counterexample. The event model is tied to the code only through these predicates (not an event-by-event log comparison); Get's aliasing reference is counted as the caller's; faults are outside C15's quantifier."),
+         "accounting / never_negative / reachable_positive / closed_balanced_partial (+ nodes_freed_or_orphan, nodes_all_freed_if_no_load_under_replaced, nodes_not_all_freed on the version protocol) for every precondition-respecting sequence of the seven reference events. The package runs with counting ItemAlloc/ItemAddRef/ItemDecRef callbacks over histories with snapshots, evictions, flushes, re-opens, nested visits; after every step no count is negative and every cached reachable item is positive; after closing everything all counts are zero EXCEPT in the histories of known finding F11, where the property's last clause is false of the code (see level_note).",
+         "closed_balanced_partial assumes every node object was freed; nodes_not_all_freed proves on the version-protocol model that this assumption can fail and nodes_all_freed_if_no_load_under_replaced when it holds. Model Refs itself has no nodes loaded lazily into an old version's private copy of a child slot; on the code that is exactly where the clause 'once everything is closed every reference has been released' FAILS (known finding F11, corpus/F11-orphan-leak.ops, known_findings.json; the check prints KNOWN-FINDING for it and still reports any other imbalance). The first two clauses (never negative, reachable => positive) have no known counterexample. The event model is tied to the code only through these predicates (not an event-by-event log comparison); Get's aliasing reference is counted as the caller's; faults are outside C15's quantifier."),
  "C19": ("Lean proof: open_reads_root_only (exact read list of the scan), key-only loads never touch value bytes, flush writes tile the file; read-log checks on the implementation",
          "The model of NewStore's reads is the Go loop position by position; for files ending in a root record exactly Stat + 2 reads. Key-only traversals in any cache state read only node records and header+key ranges; records never overlap. On the implementation, every open's read list is compared exactly and every read of every key-only call (GetItem/Min/Max/visit without value, Exist, Len, Set, Delete) is checked against the value ranges of all item records ever flushed.",
          "Value ranges are computed by the model from its own (byte-identical) file image."),
